@@ -107,6 +107,11 @@ func checkC11(c *Ctx) {
 	}
 	mkHook := func(ex *Exec, log *[]durCall) {
 		ex.CallHook = func(ex *Exec, st *State, fr *Frame, call ssa.CallInstruction, callee *ssa.Function, args []Val) ([]callRes, bool) {
+			// the tempo events of the harness are already in tick order: sorting them is the identity (pinned
+			// toolchain: pattern-defeating quicksort leaves a sorted input unchanged, DESIGN §7)
+			if q := callee.String(); q == "sort.Sort" || q == "sort.Stable" {
+				return []callRes{{st: st, ret: nil}}, true
+			}
 			if callee != dur {
 				return nil, false
 			}
